@@ -119,6 +119,51 @@ class ClosedFormStream(Stream):
                 "S=c20.cascade_solver(ts) if d['kind']=='cascade' else c20.nest_solver(ts); m=S.solve(); print(m.get_A('out','in'))\n")
 
 
+class LossyStream(ClosedFormStream):
+    """long lossy chains / deep lossy hierarchies: the transmitted amplitude is tiny (down to 1e-40) and must still
+    be right to a RELATIVE 1e-9 (decided in Coq on the exact product)"""
+    name = "lossy_relative"
+    verdict_fn = "relval_verdict"
+
+    def generate(self, rng, tier):
+        sizes = [("cascade", 300), ("cascade", 1500), ("nest", 30), ("nest", 40)] if tier == "quick" else \
+                [("cascade", 600), ("cascade", 2000), ("cascade", 2000), ("nest", 40), ("nest", 60)]
+        out = []
+        for kind, n in sizes:
+            out.append({"kind": kind, "n": n, "idx": [rng.randrange(len(PHASES)) for _ in range(n)],
+                        "att": [rng.choice([[1, 1], [63, 64], [61, 64], [1, 2]]) if kind == "cascade"
+                                else rng.choice([[1, 2], [3, 8], [1, 4]]) for _ in range(n)]})
+        return out
+
+    def run(self, d):
+        ts = [(PHASES[i][0] * Fr(*a), PHASES[i][1] * Fr(*a)) for i, a in zip(d["idx"], d["att"])]
+        prod = (Fr(1), Fr(0))
+        for t in ts:
+            prod = cmulf(prod, t)
+        expected = [prod, (Fr(0), Fr(0)), prod, (Fr(0), Fr(0))]
+        try:
+            def go():
+                S = cascade_solver(ts) if d["kind"] == "cascade" else nest_solver(ts)
+                return S.solve()
+            mod = with_timeout(120, go)
+            vals = [mod.get_A("out", "in"), mod.get_A("in", "in"), mod.get_A("in", "out"),
+                    mod.get_A("out", "out")]
+            obs = "Obs " + cvec(vals, cf)
+        except Exception:
+            obs = "Raised"
+        return "{| vc_expected := %s; vc_obs := %s |}" % (clist(frac_lit(z) for z in expected), obs)
+
+    def classify(self, d):
+        return f"lossy_{d['kind']}{d['n']}"
+
+    def py_repro(self, d):
+        return ("import sys; sys.path.insert(0,'/verif/harness'); import c20, json\n"
+                f"d=json.loads({json.dumps(d)!r})\n"
+                "from fractions import Fraction as Fr\n"
+                "ts=[(c20.PHASES[i][0]*Fr(*a), c20.PHASES[i][1]*Fr(*a)) for i,a in zip(d['idx'],d['att'])]\n"
+                "S=c20.cascade_solver(ts) if d['kind']=='cascade' else c20.nest_solver(ts); m=S.solve(); print(m.get_A('out','in'))\n")
+
+
 def coupler(rng):
     """4-port, reflection-free, exactly unitary and symmetric: [[0,U],[U^T,0]] with U 2x2 unitary"""
     U = netlib.cayley_unitary(rng, 2)
@@ -246,7 +291,7 @@ TRUSTED = [
 ]
 
 if __name__ == "__main__":
-    main("C20", [ClosedFormStream(), OracleStream(), ChainModelStream()],
+    main("C20", [ClosedFormStream(), LossyStream(), OracleStream(), ChainModelStream()],
          level_text="props/C20.v proves the exact-arithmetic half for ALL sizes: n-1 merges, cascade closed form for any "
                     "length and schedule, nesting of any depth equals the flat circuit, passivity/isometry of the result. "
                     "The runtime half (round-off growth through thousands of LAPACK inversions, interpreter recursion and "
